@@ -3,9 +3,19 @@ package wallet
 import (
 	"crypto/rand"
 	"encoding/json"
+	"errors"
 
 	"github.com/virel-project/virel-blockchain/v3/binary"
 	"github.com/virel-project/virel-blockchain/v3/bitcrypto"
+)
+
+// Bounds of the Argon2 cost parameters accepted from a wallet file. The file header is not authenticated:
+// the parameters are used before the password can be checked, so a corrupted or crafted header must not be
+// able to panic the KDF (time = 0) or make it allocate or compute without limit.
+const (
+	kdfMaxTime = 1 << 12 // iterations: 8x a default wallet
+	kdfMaxMem  = 1 << 20 // KiB (1 GiB): 170x a default wallet
+	kdfMaxCost = 1 << 26 // time * mem: about 20x the work of a default wallet
 )
 
 func (w *Wallet) decodeDatabase(data []byte, pass string) error {
@@ -17,6 +27,10 @@ func (w *Wallet) decodeDatabase(data []byte, pass string) error {
 
 	if d.Error() != nil {
 		return d.Error()
+	}
+
+	if time < 1 || time > kdfMaxTime || mem > kdfMaxMem || uint64(time)*uint64(mem) > kdfMaxCost {
+		return errors.New("invalid wallet file: key derivation parameters out of range")
 	}
 
 	p := bitcrypto.KDF([]byte(pass), salt, time, mem)
